@@ -160,7 +160,8 @@ def first_line_diff(a, b):
 
 HASHSEED_SCRIPT = r"""
 import sys, json, hashlib
-sys.path.insert(0, "/verif")
+import os
+sys.path.insert(0, os.environ.get("VERIF_ROOT", "/verif"))
 from vf.props import c09
 out = {}
 for i, spec in enumerate(c09.catalogue()):
